@@ -134,6 +134,8 @@ def exec_path(eng, fi, c, instance):
     for r in c.requires:
         eng.assume(eng.pure_bool(r, fr))
     eng.cover('cover.requires')
+    if eng.path_id == 1:
+        prove_lemmas(eng, c, fr)
     outcome = None
     try:
         eng.exec_block(fi.node.body, fr)
@@ -165,6 +167,7 @@ def finish(eng, fi, c, fr, outcome):
         fr.ghost['result'] = res
         eng.B.unit_exit(eng, fi, c, fr, outcome)
         fr_post = entry_frame(fr)     # parameter names in postconditions denote entry values
+        use_lemmas(eng, c, fr_post)
         eng.forall_mode = 'prove'
         for name, e in c.ensures.items():
             eng.prove('post.' + name.split('[')[0], eng.pure_bool(e, fr_post), kind='post', props=c.clause_props(name),
@@ -230,6 +233,34 @@ class entry_heap:
                 if k_ not in self.cur:
                     self.cur[k_] = v_
             st.heap = self.cur
+
+
+def use_lemmas(eng, c, fr):
+    """spec-level induction lemmas declared in the contract (each proved separately as lemma.base / lemma.step
+    obligations of this unit, see prove_lemmas) are instantiated at the stated terms before the postconditions"""
+    for lem in c.extra.get('lemmas', []):
+        for use in lem.get('use', []):
+            f = Frame(fr.func, fr)
+            f.vars[lem['var']] = eng.pure_expr(use, fr)
+            guard = eng.pure_bool('%s >= %s' % (lem['var'], lem.get('base', '0')), f)
+            eng.assume(z3.Implies(guard, eng.pure_bool(lem['stmt'], f)))
+
+
+def prove_lemmas(eng, c, fr):
+    """induction scheme supplied explicitly: P(base) and (k >= base and P(k)) => P(k+1), over the unit's symbolic inputs"""
+    for lem in c.extra.get('lemmas', []):
+        var, base = lem['var'], lem.get('base', '0')
+        f = Frame(fr.func, fr)
+        f.vars[var] = eng.pure_expr(base, fr)
+        eng.prove('lemma.%s.base' % lem['name'], eng.pure_bool(lem['stmt'], f), kind='lemma', assume_after=False)
+        k = eng.fresh(INT, var)
+        f1 = Frame(fr.func, fr)
+        f1.vars[var] = k
+        f2 = Frame(fr.func, fr)
+        f2.vars[var] = V(INT, k.t + 1)
+        hyp = z3.And(eng.pure_bool('%s >= %s' % (var, base), f1), eng.pure_bool(lem['stmt'], f1))
+        eng.prove('lemma.%s.step' % lem['name'], z3.Implies(hyp, eng.pure_bool(lem['stmt'], f2)), kind='lemma',
+                  assume_after=False)
 
 
 def entry_frame(fr):
